@@ -155,6 +155,10 @@ inductive Own where
   | bytes (content : Bytes) (sibling : Bool)   -- the bytes that are searched; from FILE.license?
   | unreadable                                 -- FILE.license is a directory: `open` fails
 
+def Own.isUnreadable : Own → Bool
+  | .unreadable => true
+  | _ => false
+
 def ownOf (entries : ETree) (name : String) (content : Bytes) : Own :=
   match elookup entries (name ++ ".license") with
   | some (.file c) => .bytes c true
@@ -185,19 +189,26 @@ structure EFile where
   readable : Bool
   infos : List Info
 
-def fileOf (c : E2ECfg) (g : GlobalLic) (tree : ETree) (p : List String) : EFile :=
+/-- the own source of the file at `p`: looked up in the directory that contains it -/
+def ownAt (tree : ETree) (p : List String) : Own :=
   let entries := (subtree tree p.dropLast).getD []
   let name := p.getLast?.getD ""
   let content := match elookup entries name with
     | some (.file b) => b
     | _ => []
-  let own := ownOf entries name content
+  ownOf entries name content
+
+/-- `FileReport.generate` raises (the own source cannot be opened) unless an `override` means it
+    is never opened -/
+def readableOf (levels : List (Option Table)) : Own → Bool
+  | .unreadable => !(nested levels).override.isEmpty
+  | _ => true
+
+def fileOf (c : E2ECfg) (g : GlobalLic) (tree : ETree) (p : List String) : EFile :=
+  let own := ownAt tree p
   let levels := chainOf c g p
   { path := p, own := own, levels := levels
-    -- an `override` means the own source is never opened
-    readable := match own with
-      | .unreadable => !(nested levels).override.isEmpty
-      | _ => true
+    readable := readableOf levels own
     infos := reuseInfoOf levels (fileInfoOf c p own) }
 
 /-- `report.copyright` (the sorted lines joined by newlines) is a non-empty string -/
@@ -218,12 +229,12 @@ mutual
 /-- `glob.iglob("LICENSES/**", recursive=True)` restricted to regular files: hidden names are
     neither listed nor descended into -/
 def licWalkNode (path : List String) (name : String) : ENode → List (List String)
-  | .file _ => [path ++ [name]]
+  | .file _ => if hiddenName name then [] else [path ++ [name]]
   | .symlink => []
-  | .dir cs => licWalkList (path ++ [name]) cs
+  | .dir cs => if hiddenName name then [] else licWalkList (path ++ [name]) cs
 def licWalkList (path : List String) : List (String × ENode) → List (List String)
   | [] => []
-  | (n, c) :: rest => (if hiddenName n then [] else licWalkNode path n c) ++ licWalkList path rest
+  | (n, c) :: rest => licWalkNode path n c ++ licWalkList path rest
 end
 
 /-- the paths `_find_licenses` iterates over (`*.license` companions are skipped by `findStep`).
